@@ -177,6 +177,18 @@ func (s *S) Send(p *Peer, b []byte) error {
 	return nil
 }
 
+// SendCombined writes bytes to the proxy and delivers ONE epoll event that is readable and writable
+// at once, through the reactor's dispatcher (eventloop.callback).
+func (s *S) SendCombined(p *Peer, b []byte) error {
+	if _, err := unix.Write(p.PeerFd, b); err != nil && err != unix.EAGAIN {
+		return err
+	}
+	if !s.L.IsOpen(p.ProxyFd) {
+		return nil
+	}
+	return s.L.Event(p.ProxyFd, true, true)
+}
+
 // SendNoEvent writes bytes without delivering the readable event.
 func (s *S) SendNoEvent(p *Peer, b []byte) error {
 	_, err := unix.Write(p.PeerFd, b)
